@@ -246,5 +246,9 @@ def run(db, rep, tier):
     rep.declined += ['rounding', 'large-|t| argument reduction of libm']
     check_direct(db, rep, tier)
     check_prepare_and_fast(db, rep, tier)
+    # evolving a vector in place (rho = rho.Evolve(...)) is only right if the evolution kernels, which mix components,
+    # are not declared element-wise (the fused assignment would then overwrite its own input)
+    import c09
+    c09.check_traits(db, rep, only=('Evolution', 'FastEvolution'))
     if tier == 'thorough':
         check_derived(db, rep)
